@@ -102,52 +102,83 @@ def sh(cmd, timeout, cwd=None):
         return 124, out, "TIMEOUT", time.time() - t0
 
 
-def ensure_makefile():
-    mk = os.path.join(COQ, "Makefile")
-    proj = os.path.join(COQ, "_CoqProject")
-    if not os.path.exists(mk) or os.path.getmtime(mk) < os.path.getmtime(proj):
-        rc, out, err, _ = sh("coq_makefile -f _CoqProject -o Makefile", 120, cwd=COQ)
-        if rc != 0:
-            raise RuntimeError("coq_makefile failed: " + err)
+def gen_coqproject():
+    """_CoqProject lists every .v under coq/ (so adding a property needs no shared edit)"""
+    files = []
+    for root, dirs, fs in os.walk(COQ):
+        dirs.sort()
+        for f in sorted(fs):
+            if f.endswith(".v"):
+                files.append(os.path.relpath(os.path.join(root, f), COQ))
+    txt = "-Q . KD\n" + "\n".join(files) + "\n"
+    p = os.path.join(COQ, "_CoqProject")
+    if not os.path.exists(p) or open(p).read() != txt:
+        with open(p, "w") as f:
+            f.write(txt)
 
 
-def build_coq(files, clean=False, timeout=1500):
-    """compile the given .v files (and what they need) with the project Makefile;
-    then re-run coqc on the last file (the Property file) to capture the
-    Print Assumptions output.  Returns dict(ok, log, assumptions, theorems)."""
-    ensure_makefile()
-    vos = [f[:-2] + ".vo" for f in files]
-    if clean:
-        for f in files:
-            for ext in (".vo", ".vos", ".vok", ".glob"):
-                p = os.path.join(COQ, f[:-2] + ext)
-                if os.path.exists(p):
-                    os.remove(p)
-    rc, out, err, wall = sh(["timeout", str(timeout), "make", "-j8"] + vos, timeout + 30, cwd=COQ)
-    res = {"ok": rc == 0, "log": (out + err)[-6000:], "wall_s": wall, "assumptions": [], "theorems": [], "axioms": []}
+def setup_all():
+    """MANIFEST.setup_cmd: full .vo build of the whole development"""
+    gen_coqproject()
+    rc, out, err, _ = sh("coq_makefile -f _CoqProject -o Makefile", 120, cwd=COQ)
+    if rc != 0:
+        print(out, err)
+        return rc
+    rc, out, err, wall = sh(["timeout", "3000", "make", "-j16"], 3100, cwd=COQ)
+    print(out[-3000:], err[-3000:])
+    print(f"setup: make rc={rc} wall={wall:.0f}s")
+    return rc
+
+
+def build_coq(files, clean=False, timeout=900):
+    """compile the given .v files in the given (dependency) order with coqc when
+    their .vo is missing or older than the source or an earlier file of the list
+    was recompiled; the last file (the Property file) is always recompiled to
+    capture the Print Assumptions output.
+    Returns dict(ok, log, assumptions, theorems, axioms, wall_s)."""
+    t0 = time.time()
+    res = {"ok": True, "log": "", "wall_s": 0.0, "assumptions": [], "theorems": [], "axioms": []}
     prop = files[-1]
     src = open(os.path.join(COQ, prop)).read()
-    res["theorems"] = re.findall(r"^\s*(?:Theorem|Corollary)\s+([A-Za-z0-9_']+)", src, re.M)
-    for bad in ("Admitted", "admit.", "Axiom ", "Parameter ", "Conjecture "):
-        for f in files:
-            if bad in strip_comments(open(os.path.join(COQ, f)).read()):
+    res["theorems"] = re.findall(r"^\s*(?:Theorem|Corollary)\s+([A-Za-z0-9_']+)", strip_comments(src), re.M)
+    for f in files:
+        body = strip_comments(open(os.path.join(COQ, f)).read())
+        for bad in ("Admitted", "admit.", "Axiom ", "Parameter ", "Conjecture ", "Admit Obligations",
+                    "Unset Guard", "bypass_check", "Unset Universe", "Unset Positivity"):
+            if bad in body:
                 res["ok"] = False
                 res["log"] += f"\nforbidden token {bad!r} in {f}"
-    if rc == 0:
-        rc2, out2, err2, _ = sh(["timeout", "600", "coqc", "-Q", ".", "KD", prop], 630, cwd=COQ)
-        if rc2 != 0:
+    dirty = clean
+    out_last = ""
+    for f in files:
+        v = os.path.join(COQ, f)
+        vo = v[:-2] + ".vo"
+        need = dirty or f == prop or not os.path.exists(vo) or os.path.getmtime(vo) < os.path.getmtime(v)
+        if not need:
+            continue
+        rc, out, err, _ = sh(["timeout", str(timeout), "coqc", "-Q", ".", "KD", f], timeout + 30, cwd=COQ)
+        if f != prop:
+            dirty = True
+        if rc != 0:
             res["ok"] = False
-            res["log"] += out2 + err2
-        else:
-            blocks = re.split(r"(?=Closed under the global context|Axioms:)", out2)
-            for b in blocks:
-                if b.startswith("Closed under"):
-                    res["assumptions"].append("closed")
-                elif b.startswith("Axioms:"):
-                    names = re.findall(r"^([A-Za-z_][A-Za-z0-9_.']*)\s*:", b, re.M)
-                    res["assumptions"].append("axioms: " + ", ".join(names))
-                    res["axioms"] += names
-            res["axioms"] = sorted(set(res["axioms"]))
+            res["log"] += f"\ncoqc {f} failed (rc={rc}):\n" + (out + err)[-4000:]
+            break
+        out_last = out
+    if res["ok"]:
+        blocks = re.split(r"(?=Closed under the global context|Axioms:)", out_last)
+        for b in blocks:
+            if b.startswith("Closed under"):
+                res["assumptions"].append("closed")
+            elif b.startswith("Axioms:"):
+                names = re.findall(r"^([A-Za-z_][A-Za-z0-9_.']*)\s*:", b, re.M)
+                res["assumptions"].append("axioms: " + ", ".join(names))
+                res["axioms"] += names
+        res["axioms"] = sorted(set(res["axioms"]))
+        if len(res["assumptions"]) < len(res["theorems"]):
+            res["ok"] = False
+            res["log"] += (f"\n{prop}: {len(res['theorems'])} theorems but only {len(res['assumptions'])} "
+                           "Print Assumptions reports")
+    res["wall_s"] = time.time() - t0
     return res
 
 
@@ -463,8 +494,8 @@ def run_check(P, tier, seed, replay=None):
     coverage = {
         "obligations": max(obligations, 1),
         "discharged": discharged,
-        "checker_cmd": "cd /verif/coq && make " + " ".join(f[:-2] + ".vo" for f in P.COQ_FILES)
-                       + " && coqc -Q . KD " + P.COQ_FILES[-1] + "  (Print Assumptions under every theorem)",
+        "checker_cmd": "cd /verif/coq && for f in " + " ".join(P.COQ_FILES)
+                       + "; do coqc -Q . KD $f; done  (Print Assumptions under every theorem of the last file)",
         "trusted_base": ["Coq 8.16.1 kernel + vm_compute (no native_compute)",
                          "Print Assumptions: " + ("; ".join(sorted(set(build["assumptions"]))) or "n/a")] + list(P.TRUSTED),
         "theorems": build["theorems"],
